@@ -1381,6 +1381,32 @@ pub fn cache_life(out: &mut Out, rng: &mut Rng, cfg: &Config, g: &GenOpts) {
             s.len();
             continue;
         }
+        // stale expiry filing under a colliding key: A = (idx, conflict 1) gets a TTL and is removed again; B =
+        // (idx, conflict 2) takes the index with a TTL that ends in the next second; the sweep runs when A's old
+        // bucket is due, B has expired and B's own bucket is not due yet: nothing of A may be left in the
+        // bucket, so the sweep must not touch B's charge (C05, C06, C18)
+        if !closed && g.collisions && g.w_ttl > 0 && rng.chance(1, 20) {
+            s.clear();
+            s.drain();
+            // to X.1 s
+            let adv = (SEC - s.now % SEC) + SEC / 10;
+            s.clock(adv);
+            s.insert(idx, 1, 1, 3 * SEC / 10, false); // ends at X.4: filed under bucket X + 1
+            s.drain();
+            s.remove(idx, 1);
+            s.drain();
+            s.insert(idx, 2, 1, SEC + SEC / 10, false); // ends at (X + 1).2: filed under bucket X + 2
+            s.drain();
+            s.clock(SEC + SEC / 2); // (X + 1).6: bucket X + 1 is due, bucket X + 2 is not
+            s.proc_tick();
+            s.drain();
+            s.len();
+            s.get(idx, 2);
+            s.clock(SEC);
+            s.proc_tick();
+            s.len();
+            continue;
+        }
         // an entry whose charge is exactly zero (cost 0, Coster value 0, internal cost ignored) expires, is swept,
         // and the key is used again: also a zero charge is released (C05, C06)
         if !closed && g.w_ttl > 0 && cfg.ignore_internal && cfg.coster == 0 && rng.chance(1, 25) {
